@@ -109,6 +109,25 @@ func Schemas(thorough bool) []string {
 			}
 		}
 	}
+	// properties / required / default beside a $ref, in both drafts (draft-07 ignores the siblings of
+	// $ref when validating; the required set still says what ApplyDefaults must not fill), at the root
+	// and one level down
+	for _, pre := range []string{`"$schema":"http://json-schema.org/draft-07/schema#","definitions":{"x":{}},"$ref":"#/definitions/x",`, `"$defs":{"x":{}},"$ref":"#/$defs/x",`, `"$schema":"http://json-schema.org/draft-07/schema#",`} {
+		hd := pre
+		if i := strings.Index(pre, `"$ref"`); i >= 0 {
+			hd = pre[:i] // the definitions stay at the root
+		}
+		ref := strings.TrimPrefix(pre, hd)
+		for _, rq := range reqs {
+			req := ""
+			if rq != "" {
+				req = `,"required":[` + rq + `]`
+			}
+			add(`{` + pre + `"properties":{"a":{"default":1},"b":{"default":"s"}}` + req + `}`)
+			add(`{` + hd + `"properties":{"a":{` + ref + `"properties":{"a":{"default":1},"b":{"default":{"a":5}}}` + req + `},"b":{"default":{}}}}`)
+			add(`{` + hd + `"properties":{"a":{` + ref + `"default":{},"properties":{"a":{"default":1},"b":{"default":[1]}}` + req + `}}}`)
+		}
+	}
 	return out
 }
 
